@@ -22,6 +22,8 @@ structure DRel (g : Globals) (R : Ty) (s : St) (ss : SpecSt) : Prop where
   declarations, under the names the denotation has declared / closed (C18) -/
   vinv : FramesOk s.dts [] ss.dscope ss.kids
   vreg : ∀ t ∈ s.dts, ∀ x ∈ t.decls, x.innerName ∈ s.root.innerNames
+  /-- the registers written so far are not above the counter (so the next one is fresh: C04) -/
+  wle : WLe s
 
 /-- a statement-level function that reports no error preserves the relation -/
 def StD (g : Globals) (R : Ty) (f : St → St) (F : SpecSt → SpecSt) : Prop :=
@@ -193,13 +195,13 @@ theorem tenv_insertValue (n : Name) (v : Value) (s : St) : (s.insertValue n v).t
 
 theorem tenv_registerInner (n : Name) (s : St) : (s.registerInner n).tenv = s.tenv := tenv_of_ctx rfl
 
-theorem declOk_self (ds : List Value) (rs : List (Nat × Ty)) (v : Value) :
-    ({ regs := rs, decls := v :: ds } : TyEnv).declOk v = true := by
+theorem declOk_self (ds : List Value) (rs ws : List (Nat × Ty)) (v : Value) :
+    ({ regs := rs, decls := v :: ds, written := ws } : TyEnv).declOk v = true := by
   unfold TyEnv.declOk; simp [List.find?_cons]
 
-theorem declOk_cons {ds : List Value} {rs : List (Nat × Ty)} {v d : Value} (hne : d.innerName ≠ v.innerName)
-    (h : ({ regs := rs, decls := ds } : TyEnv).declOk v = true) :
-    ({ regs := rs, decls := d :: ds } : TyEnv).declOk v = true := by
+theorem declOk_cons {ds : List Value} {rs ws : List (Nat × Ty)} {v d : Value} (hne : d.innerName ≠ v.innerName)
+    (h : ({ regs := rs, decls := ds, written := ws } : TyEnv).declOk v = true) :
+    ({ regs := rs, decls := d :: ds, written := ws } : TyEnv).declOk v = true := by
   unfold TyEnv.declOk at h ⊢
   have : (d.innerName == v.innerName) = false := by simp [hne]
   simp only [List.find?_cons, this]
@@ -287,7 +289,7 @@ theorem den_let {g : Globals} {R : Ty} {rg : RGlobals} (hg : GlobRel g rg) (hn :
         have hvi1 : FramesOk s1.dts [] ss.dscope ss.kids := by rw [t1.dts]; exact hr.vinv
         have hvr1 : ∀ t ∈ s1.dts, ∀ x ∈ t.decls, x.innerName ∈ s1.root.innerNames := by
           rw [t1.dts, t1.rootNames]; exact hr.vreg
-        refine ⟨⟨?_, ?_, ?_, ?_⟩, ?_, ?_, ?_, ?_, ?_, ?_, ?_⟩
+        refine ⟨⟨?_, ?_, ?_, ?_⟩, ?_, ?_, ?_, ?_, ?_, ?_, ?_, ?_⟩
         rotate_left 7
         · -- reads
           apply rd_push_nowrite (rd_insertRegister (t1.rd hr.rd) _ _ _) _ rfl
@@ -295,7 +297,7 @@ theorem den_let {g : Globals} {R : Ty} {rg : RGlobals} (hg : GlobRel g rg) (hn :
           rw [curReg_insertRegister, abs_registerInner, abs_insertValue]
           exact hh.regs q hq
         · -- typed scan
-          apply tok_push _ (tok_of_ctx _ (t1.tok R hr.tok))
+          apply tok_push _ (tok_of_ctx _ (t1.tok R hr.rd hr.wle hr.tok))
           · intro bb hb
             rw [tenv_registerInner, tenv_insertValue] at hb
             simp [tyStepBad, badIf, hh.operandOk] at hb
@@ -337,6 +339,15 @@ theorem den_let {g : Globals} {R : Ty} {rg : RGlobals} (hg : GlobRel g rg) (hn :
           · left
             simp only [List.mem_singleton] at hx
             rw [hx]
+        · -- written registers
+          intro p hp
+          rw [tenv_push, tenv_registerInner, tenv_insertValue] at hp
+          have hrr : (((s1.insertValue b.name ⟨inner, r.ty, b.mutable, false, false⟩).registerInner inner).push
+              (.letBinding ⟨inner, r.ty, b.mutable, false, false⟩ r)).root.reg = s1.root.reg := by
+            unfold St.push St.registerInner St.mapFrames St.insertValue St.mapCur
+            cases s1.inner <;> rfl
+          rw [hrr]
+          exact t1.wle hr.rd hr.wle p hp
         · -- types
           unfold ScopeRel
           rw [vals_push, vals_registerInner]
@@ -377,7 +388,7 @@ theorem den_let {g : Globals} {R : Ty} {rg : RGlobals} (hg : GlobRel g rg) (hn :
                 exact Or.inr (hs1.dk x (by rw [hx]; simp) n v hv)
             · exact Or.inr (hs1.dk fr (by rw [hx]; simp [hfr]) n v hv)
           rcases hcase with rfl | hok
-          · exact declOk_self _ _ _
+          · exact declOk_self _ _ _ _
           · exact declOk_cons (fun e => hold v hok e.symm) hok
         · -- declared records carry registered names
           rw [htenv, hroot]
@@ -407,8 +418,8 @@ theorem den_let {g : Globals} {R : Ty} {rg : RGlobals} (hg : GlobRel g rg) (hn :
 theorem drel_trans {g : Globals} {R : Ty} {s s1 : St} {ss : SpecSt} {evs : List DStmt} (hr : DRel g R s ss) (t1 : Trans g s s1 evs) :
     DRel g R s1 (ss.emits evs) :=
   ⟨⟨(hr.scope.of_trans t1).sc, (hr.scope.of_trans t1).dv, (hr.scope.of_trans t1).dk, (hr.scope.of_trans t1).dn⟩, by rw [t1.out, hr.out]; rfl, by rw [t1.decls]; exact hr.next,
-   fun n hn => by rw [t1.rootNames]; exact hr.reg n (by rw [← t1.decls]; exact hn), t1.rd hr.rd, t1.tok R hr.tok,
-   by rw [t1.dts]; exact hr.vinv, by rw [t1.dts, t1.rootNames]; exact hr.vreg⟩
+   fun n hn => by rw [t1.rootNames]; exact hr.reg n (by rw [← t1.decls]; exact hn), t1.rd hr.rd, t1.tok R hr.rd hr.wle hr.tok,
+   by rw [t1.dts]; exact hr.vinv, by rw [t1.dts, t1.rootNames]; exact hr.vreg, t1.wle hr.rd hr.wle⟩
 
 /-- pushing a statement-level instruction that only appends statement `d` to the abstract reading -/
 theorem drel_push_emit {g : Globals} {R : Ty} {s : St} {ss : SpecSt} (hr : DRel g R s ss) (i : Instr) (d : DStmt)
@@ -424,7 +435,13 @@ theorem drel_push_emit {g : Globals} {R : Ty} {s : St} {ss : SpecSt} (hr : DRel 
    by rw [abs_push, ho, hr.out]; rfl, by rw [abs_push, hd]; exact hr.next,
    fun n hn => hr.reg n (by rw [abs_push, hd] at hn; exact hn), rd_push_nowrite hr.rd i hw hrd, tok_push i hr.tok hty,
    by rw [dts_push_plain i s (declares_none_of hnd)]; exact hr.vinv,
-   by rw [dts_push_plain i s (declares_none_of hnd)]; exact hr.vreg⟩
+   by rw [dts_push_plain i s (declares_none_of hnd)]; exact hr.vreg,
+   by
+     intro p hp
+     rw [tenv_push] at hp
+     rcases written_step _ _ p hp with hp | hp
+     · exact hr.wle p hp
+     · rw [hw] at hp; cases hp⟩
 
 theorem len_of_ext {a b : List Err} (h : ∃ Δ, b = a ++ Δ) : a.length ≤ b.length := by
   obtain ⟨Δ, h⟩ := h; rw [h]; simp
@@ -591,16 +608,16 @@ theorem den_cond {g : Globals} {rg : RGlobals} (hg : GlobRel g rg) (hn : GNames 
                     · exact hhr.regs q hq
                   · intro w hw; simp [Instr.writes] at hw; exact hw.symm
                   · exact ⟨fun _ _ h => (nomatch h), fun _ _ h => (nomatch h)⟩
-                  · intro R' bb hb
+                  · intro R' hr' hwl' bb hb
                     have hty' : lv.ty = rv.ty := Classical.not_not.mp hne
                     have hpr' : rv.ty.isPrim = true := by
                       rw [← hty']
                       cases hp : lv.ty.isPrim with
                       | true => rfl
                       | false => rw [hp] at hpr; simp at hpr
-                    simp [tyStepBad, badIf, hhl.operandOk, hhr.operandOk, hty', hpr'] at hb
+                    simp [tyStepBad, badIf, hhl.operandOk, hhr.operandOk, hty', hpr', wOk_fresh hwl' hr'] at hb
                 have ht3 : (s2.incReg.push (.condExpr lv rv c.cond s2.incReg.curReg)).tenv.reg s2.incReg.curReg = some (.prim .bool) := by
-                  rw [tenv_push]; exact reg_cons_eq _ _ _ _
+                  rw [tenv_push]; exact reg_cons_eq _ _ _ _ _
                 have hb3 : (s2.incReg.push (.condExpr lv rv c.cond s2.incReg.curReg)).abs.bound s2.incReg.curReg = true := by
                   rw [abs_push, abs_incReg]
                   simp [abstractStep, AbsSt.bind_bound]
@@ -678,7 +695,7 @@ theorem den_cond {g : Globals} {rg : RGlobals} (hg : GlobRel g rg) (hn : GNames 
                         · exact ⟨h4, b4⟩
                       · intro w hw; simp [Instr.writes] at hw; exact hw.symm
                       · exact ⟨fun _ _ h => (nomatch h), fun _ _ h => (nomatch h)⟩
-                      · intro R' bb hb; simp [tyStepBad] at hb
+                      · intro R' hr' hwl' bb hb; simp [tyStepBad, badIf, wOk_fresh hwl' hr'] at hb
                     unfold specLogic
                     refine ⟨by simpa [List.append_assoc] using ((t12.trans (t3 hhl hhr)).trans t4).trans t5, ?_,
                       by rw [curReg_push]; exact Nat.le_refl _, ?_⟩
@@ -754,7 +771,7 @@ theorem drel_setReturn {g : Globals} {R : Ty} {s : St} {ss : SpecSt} (hr : DRel 
      simp [St.setReturn, St.mapFrames] at hb ⊢
      obtain ⟨b', hb', rfl⟩ := hb
      exact hr.rd.sync b' hb') rfl rfl, tok_of_ctx rfl hr.tok,
-   by rw [dts_setReturn]; exact hr.vinv, by rw [dts_setReturn]; exact hr.vreg⟩
+   by rw [dts_setReturn]; exact hr.vinv, by rw [dts_setReturn]; exact hr.vreg, wle_of_ctx rfl (Nat.le_refl _) hr.wle⟩
 
 theorem den_nestedReturn {g : Globals} {R : Ty} {rg : RGlobals} (hg : GlobRel g rg) (hn : GNames g) (e : Expr)
     (s : St) (ss : SpecSt) (hr : DRel g R s ss) (he : (nestedReturn g e s).1.errors = s.errors) :
